@@ -3,6 +3,7 @@ import GFS.Base.Md5
 import GFS.Model.Front
 import GFS.Spec.S3
 import GFS.Spec.Listing
+import GFS.Spec.Versions
 /-
   stateful part of the driver: one model store and one specification store, driven by the
   same operation lines.
@@ -15,6 +16,8 @@ structure DState where
   mem  : Mem := Mem.empty
   spec : Spec.S3.Store := []
   backend : String := "mem"
+  vmode : Bool := false                       -- spec column from Spec.Versions
+  vspec : SMap Spec.Versions.VBucket := []
 
 def optNat (o : Option Nat) : String := match o with | some n => toString n | none => "-"
 
@@ -112,80 +115,171 @@ def specStep (st : DState) (op : Spec.S3.Op) : DState × String :=
   let (s', a) := Spec.S3.step s0 op
   ({ st with spec := s' }, showAns a)
 
+def vb (st : DState) (b : Bytes) : Option Spec.Versions.VBucket := SMap.find st.vspec b
+
+def setVb (st : DState) (b : Bytes) (v : Spec.Versions.VBucket) : DState := { st with vspec := SMap.insert st.vspec b v }
+
+/-- the id the model drew for an acknowledged write (the implementation's is compared with it) -/
+def vidOfOut : Out → Option Nat
+  | .stored _ v => v
+  | .deleted _ v => v
+  | _ => none
+
+def showVGet (r : Res Bytes) (head : Bool) : String :=
+  match r with
+  | .ok body => if head then s!"hobj {body.length}" else s!"obj {toHex body}"
+  | .err c => s!"err {c.name}"
+  | .panic _ => "panic"
+
+def showVGetV (r : Res (Option Bytes)) (head : Bool) : String :=
+  match r with
+  | .ok (some body) => if head then s!"hobj {body.length}" else s!"obj {toHex body}"
+  | .ok none => "delete-marker"
+  | .err c => s!"err {c.name}"
+  | .panic _ => "panic"
+
+def showSpecVersions (v : Spec.Versions.VBucket) (p : Prefix) : String :=
+  let es := v.keys.foldl (fun acc (kv : Bytes × List Spec.Versions.VEntry) =>
+    -- only keys listed under Contents-like entries (no delimiter grouping in the spec column)
+    if (p.match_ kv.1).isSome then
+      acc ++ kv.2.map (fun e =>
+        let kind := if e.marker then "D" else "V"
+        let latest := if (kv.2.getLast?.map (·.id)) == some e.id then "1" else "0"
+        s!"{toHex kv.1}:{e.id}:{kind}:{latest}")
+    else acc) []
+  "specversions " ++ (if es.isEmpty then "-" else ",".intercalate es)
+
+/-- the Spec.Versions column for one operation (after the model step, whose ids it reuses) -/
+def vspecStep (st : DState) (toks : List String) (o : Out) (nextVerBefore : Nat) : DState × String :=
+  match toks with
+  | ["mkbucket", b] =>
+    (match o with
+     | .ok => (setVb st (fromHex b) ⟨.never, []⟩, "ok")
+     | _ => (st, "-"))
+  | ["setver", b, s] =>
+    (match vb st (fromHex b) with
+     | some v => (setVb st (fromHex b) (Spec.Versions.setStatus v (s == "E")), "ok")
+     | none => (st, "err NoSuchBucket"))
+  | ["put", b, k, _, body] =>
+    (match vb st (fromHex b) with
+     | some v => (setVb st (fromHex b) (Spec.Versions.put v (fromHex k) (nextVerBefore + 1) (fromHex body)), "ok")
+     | none => (st, "err NoSuchBucket"))
+  | ["del", b, k] =>
+    (match vb st (fromHex b) with
+     | some v => (setVb st (fromHex b) (Spec.Versions.delete v (fromHex k) (nextVerBefore + 1)), "ok")
+     | none => (st, "err NoSuchBucket"))
+  | ["delv", b, k, vid] =>
+    (match vb st (fromHex b) with
+     | some v => (setVb st (fromHex b) (Spec.Versions.deleteVersion v (fromHex k) (parseNat vid)), "ok")
+     | none => (st, "err NoSuchBucket"))
+  | ["delmulti", b, ks] =>
+    (match vb st (fromHex b) with
+     | some v =>
+       -- marker ids are drawn in order, one per plain delete of an existing key while Enabled
+       let (v', _) := (parseObjIds ks).foldl (fun (acc : Spec.Versions.VBucket × Nat) (p : Bytes × Option Nat) =>
+         match p.2 with
+         | some id => (Spec.Versions.deleteVersion acc.1 p.1 id, acc.2)
+         | none =>
+           let draws := acc.1.status == .enabled && !(Spec.Versions.entriesOf acc.1 p.1).isEmpty
+           (Spec.Versions.delete acc.1 p.1 (acc.2 + 1), if draws then acc.2 + 1 else acc.2)) (v, nextVerBefore)
+       (setVb st (fromHex b) v', "ok")
+     | none => (st, "err NoSuchBucket"))
+  | ["get", b, k] =>
+    (match vb st (fromHex b) with
+     | some v => (st, showVGet (Spec.Versions.get v (fromHex k)) false)
+     | none => (st, "err NoSuchBucket"))
+  | ["head", b, k] =>
+    (match vb st (fromHex b) with
+     | some v => (st, showVGet (Spec.Versions.get v (fromHex k)) true)
+     | none => (st, "err NoSuchBucket"))
+  | ["getv", b, k, vid] =>
+    (match vb st (fromHex b) with
+     | some v => (st, showVGetV (Spec.Versions.getVersion v (fromHex k) (parseNat vid)) false)
+     | none => (st, "err NoSuchBucket"))
+  | ["headv", b, k, vid] =>
+    (match vb st (fromHex b) with
+     | some v => (st, showVGetV (Spec.Versions.getVersion v (fromHex k) (parseNat vid)) true)
+     | none => (st, "err NoSuchBucket"))
+  | ["listv", b, hasP, pfx, hasD, d, _, _, _] =>
+    (match vb st (fromHex b) with
+     | some v => (st, showSpecVersions v (parsePrefix hasP pfx hasD d))
+     | none => (st, "err NoSuchBucket"))
+  | _ => (st, "-")
+
 /-- one stateful operation: (new state, model observation, spec observation or "-") -/
-def stepState (st : DState) (toks : List String) : Option (DState × String × String) :=
+def stepState0 (st : DState) (toks : List String) : Option (DState × Out × String × String) :=
   let md5 := Md5.md5
   match toks with
-  | ["reset"] => some ({ st with mem := Mem.empty, spec := [] }, "ok", "-")
+  | ["reset"] => some ({ st with mem := Mem.empty, spec := [], vspec := [] }, Out.ok, "ok", "-")
   | ["cfg", backend, auto, failpage, novers] =>
     let versioned := backend == "mem" && novers != "1"
     let pag := backend == "mem"
     let ab := auto == "1"
     let fp := failpage == "1"
     let c : Cfg := { versioned := versioned, paginates := pag, autoBucket := ab, failOnPage := fp, isMem := pag }
-    some ({ st with backend := backend, cfg := c }, "ok", "-")
+    some ({ st with backend := backend, cfg := c }, Out.ok, "ok", "-")
   | ["mkbucket", b] =>
     let (m, o) := Front.createBucket st.mem (fromHex b)
     -- the specification's create presupposes a name the create-bucket rule (C17) accepts
     let (st', sp) := if validateBucketName (fromHex b) then specStep { st with mem := m } (.createBucket (fromHex b))
                      else ({ st with mem := m }, "err InvalidBucketName")
-    some (st', showOut o, sp)
+    some (st', o, showOut o, sp)
   | ["headbucket", b] =>
     let (m, o) := Front.headBucket st.cfg st.mem (fromHex b)
     let (st', sp) := specStep { st with mem := m } (.headBucket (fromHex b))
-    some (st', showOut o, sp)
+    some (st', o, showOut o, sp)
   | ["rmbucket", b] =>
     let (m, o) := Front.deleteBucket st.cfg st.mem (fromHex b) false
     let (st', sp) := specStep { st with mem := m } (.deleteBucket (fromHex b))
-    some (st', showOut o, sp)
+    some (st', o, showOut o, sp)
   | ["forcerm", b] =>
     let (m, o) := Front.deleteBucket st.cfg st.mem (fromHex b) true
-    some ({ st with mem := m, spec := SMap.erase st.spec (fromHex b) }, showOut o, "-")
+    some ({ st with mem := m, spec := SMap.erase st.spec (fromHex b) }, o, showOut o, "-")
   | ["buckets"] =>
     let (m, o) := Front.listBuckets st.mem
     let (st', sp) := specStep { st with mem := m } .listBuckets
-    some (st', showOut o, sp)
+    some (st', o, showOut o, sp)
   | ["put", b, k, md, body] =>
     let (m, o) := Front.putObject md5 st.cfg st.mem (fromHex b) (fromHex k) (parseMeta md) (fromHex body)
     let (st', sp) := specStep { st with mem := m } (.put (fromHex b) (fromHex k) (fromHex body))
-    some (st', showOut o, sp)
+    some (st', o, showOut o, sp)
   | ["get", b, k] =>
     let (m, o) := Front.getObject st.cfg st.mem (fromHex b) (fromHex k) none false
     let (st', sp) := specStep { st with mem := m } (.get (fromHex b) (fromHex k))
-    some (st', showOut o, sp)
+    some (st', o, showOut o, sp)
   | ["head", b, k] =>
     let (m, o) := Front.getObject st.cfg st.mem (fromHex b) (fromHex k) none true
     let (st', sp) := specStep { st with mem := m } (.head (fromHex b) (fromHex k))
-    some (st', showHead o, showHeadAns sp)
+    some (st', o, showHead o, showHeadAns sp)
   | ["del", b, k] =>
     let (m, o) := Front.deleteObject st.cfg st.mem (fromHex b) (fromHex k)
     let (st', sp) := specStep { st with mem := m } (.delete (fromHex b) (fromHex k))
-    some (st', showOut o, sp)
+    some (st', o, showOut o, sp)
   | ["delmulti", b, ks] =>
     let objs := parseObjIds ks
     let (m, o) := Front.deleteMulti st.cfg st.mem (fromHex b) objs
     let (st', sp) := specStep { st with mem := m } (.deleteMulti (fromHex b) (objs.map (·.1)))
-    some (st', showOut o, sp)
+    some (st', o, showOut o, sp)
   | ["copy", sb, sk, db, dk, md] =>
     let (m, o) := Front.copyObject md5 st.cfg st.mem (fromHex sb) (fromHex sk) (fromHex db) (fromHex dk) (parseMeta md)
     let (st', sp) := specStep { st with mem := m } (.copy (fromHex sb) (fromHex sk) (fromHex db) (fromHex dk))
-    some (st', showOut o, sp)
+    some (st', o, showOut o, sp)
   | ["getv", b, k, vid] =>
     let (m, o) := Front.getObject st.cfg st.mem (fromHex b) (fromHex k) (some (parseNat vid)) false
-    some ({ st with mem := m }, showOut o, "-")
+    some ({ st with mem := m }, o, showOut o, "-")
   | ["headv", b, k, vid] =>
     let (m, o) := Front.getObject st.cfg st.mem (fromHex b) (fromHex k) (some (parseNat vid)) true
-    some ({ st with mem := m }, showHead o, "-")
+    some ({ st with mem := m }, o, showHead o, "-")
   | ["delv", b, k, vid] =>
     let (m, o) := Front.deleteObjectVersion st.cfg st.mem (fromHex b) (fromHex k) (parseNat vid)
-    some ({ st with mem := m }, showOut o, "-")
+    some ({ st with mem := m }, o, showOut o, "-")
   | ["setver", b, s] =>
     let status := if s == "E" then some true else if s == "S" then some false else none
     let (m, o) := Front.putVersioning st.cfg st.mem (fromHex b) status false
-    some ({ st with mem := m }, showOut o, "-")
+    some ({ st with mem := m }, o, showOut o, "-")
   | ["getver", b] =>
     let (m, o) := Front.getVersioning st.cfg st.mem (fromHex b)
-    some ({ st with mem := m }, showOut o, "-")
+    some ({ st with mem := m }, o, showOut o, "-")
   | ["list", b, hasP, pfx, hasD, d, hasM, marker, maxKeys, v2] =>
     let (m, o) := Front.listBucket st.cfg st.mem (fromHex b) (parsePrefix hasP pfx hasD d) (hasM == "1") (fromHex marker)
       (parseInt maxKeys) (v2 == "1")
@@ -202,11 +296,21 @@ def stepState (st : DState) (toks : List String) : Option (DState × String × S
           | none => s!"{toHex k}:?:?"
         let cl := if cs.isEmpty then "-" else ",".intercalate cs
         s!"speclist C={cl} P={showKeys (Spec.Listing.prefixes es)}"
-    some ({ st with mem := m }, showOut o, sp)
+    some ({ st with mem := m }, o, showOut o, sp)
   | ["listv", b, hasP, pfx, hasD, d, km, vm, maxKeys] =>
     let (m, o) := Front.listVersions st.cfg st.mem (fromHex b) (parsePrefix hasP pfx hasD d) (fromHex km) (parseOptNat vm)
       (parseInt maxKeys)
-    some ({ st with mem := m }, showOut o, "-")
+    some ({ st with mem := m }, o, showOut o, "-")
+  | ["vmode", v] => some ({ st with vmode := v == "1" }, Out.ok, "ok", "-")
   | _ => none
+
+def stepState (st : DState) (toks : List String) : Option (DState × String × String) :=
+  match stepState0 st toks with
+  | none => none
+  | some (st', o, m, sp) =>
+    if st.vmode then
+      let (st'', vs) := vspecStep st' toks o st.mem.nextVer
+      some (st'', m, if vs == "-" then sp else vs)
+    else some (st', m, sp)
 
 end Driver
